@@ -399,10 +399,14 @@ pub fn margin(metric: Metric, normal: &[u8], item_vec: &[u8]) -> (f64, bool) {
         let m: f64 = nv.iter().zip(&iv).map(|(a, b)| *a as f64 * *b as f64).sum();
         let abs: f64 = nv.iter().zip(&iv).map(|(a, b)| (*a as f64 * *b as f64).abs()).sum();
         let tol = (nv.len() as f64 + 8.0) * EPS32 * abs + 1e-37;
-        // when the terms can overflow f32 the evaluated margin is +-inf or NaN depending on the
+        // when the partial sums can overflow f32 the evaluated margin is +-inf or NaN depending on the
         // summation order, unless every non-zero term has the same sign (then it is that sign's
         // infinity, or finite with that sign, in any order)
-        let may_overflow = abs >= f32::MAX as f64 / 4.0;
+        // every partial sum, in any order (lane-wise or sequential), lies between the sum of the negative
+        // terms and the sum of the positive terms: when both are well inside the f32 range nothing overflows
+        let sum_pos: f64 = nv.iter().zip(&iv).map(|(a, b)| (*a as f64 * *b as f64).max(0.0)).sum();
+        let sum_neg: f64 = nv.iter().zip(&iv).map(|(a, b)| (*a as f64 * *b as f64).min(0.0)).sum();
+        let may_overflow = sum_pos.max(-sum_neg) >= f32::MAX as f64 * 0.99;
         let one_sign = {
             let pos = nv.iter().zip(&iv).any(|(a, b)| *a as f64 * *b as f64 > 0.0);
             let neg = nv.iter().zip(&iv).any(|(a, b)| (*a as f64 * *b as f64) < 0.0);
